@@ -63,7 +63,9 @@ func (r c01Resp) spec(now time.Time) RS {
 		fmt.Sscan(r.expires, &off)
 		h = append(h, [2]string{"Expires", httpDate(date.Add(secs(off)))})
 	}
-	if r.lm != "" {
+	if r.lm == "epoch" { // exactly the Unix epoch: a valid date like any other
+		h = append(h, [2]string{"Last-Modified", "Thu, 01 Jan 1970 00:00:00 GMT"})
+	} else if r.lm != "" {
 		var off int64
 		fmt.Sscan(r.lm, &off)
 		h = append(h, [2]string{"Last-Modified", httpDate(date.Add(secs(off)))})
